@@ -382,11 +382,18 @@ def vm_crosscheck(pid, inputs, outputs, timeout=600, limit=300):
 _PROP = None
 
 
-class CaseTimeout(Exception):
+class CaseTimeout(BaseException):
+    """raised asynchronously by SIGALRM; a BaseException so that plasTeX's `except Exception` blocks (e.g. PackageLoader.load, which
+    only logs and would leave a half-loaded document class behind) cannot swallow it"""
     pass
 
 
+_ALARM_FIRED = False
+
+
 def _alarm(signum, frame):
+    global _ALARM_FIRED
+    _ALARM_FIRED = True      # also remembered: a bare `except:` in the code under test may still swallow the exception
     raise CaseTimeout()
 
 
@@ -408,13 +415,19 @@ def _worker_init(modname, tscale=1):
 
 
 def _worker_run(case):
+    global _ALARM_FIRED
     t = getattr(_PROP, 'CASE_TIMEOUT', 10) * _TSCALE
+    _ALARM_FIRED = False
     signal.alarm(int(t))
     try:
         try:
             r = _PROP.run_impl(case)
         finally:
             signal.alarm(0)
+        if _ALARM_FIRED:
+            # the alarm went off but was swallowed inside the code under test: whatever came back was computed by an
+            # interrupted run and is not an observation
+            return ['hang']
         return r
     except CaseTimeout:
         return ['hang']
